@@ -285,6 +285,7 @@ def run(case: dict, ctx) -> dict:
             a = t * cov + rng.randrange(0, cov)
             reqs.append((a, min(rng.randrange(cov // 2, 2 * cov + 2), 3 << 20)))
         res["cnt"]["table_crossing_requests"] = 12
+    fault_retry_reads(v, model, reqs, rng, res, MECH, n=3)  # cold caches
     continuation_reads(v, model, reqs, rng, res, MECH)
     fault_retry_reads(v, model, reqs, rng, res, MECH)
     compare_reads(v, model, reqs, res, MECH)
